@@ -22,7 +22,7 @@ RULE = (
     "fault sets = subsets of the R + R*P evaluations (realization r unperturbed | perturbation p of r) of one "
     "function+gradient request that return NaN. Exhaustive over all subsets for R,P<=2 (quick) and R,P<=3 (thorough) x "
     "realization_min_success 0..R x perturbation_min_success 1..P x NaN column (objective | first constraint | second constraint) x estimator "
-    "(mean|stddev) x filter (none|sort|cvar) x evaluation path (combined|split) (+ merged-realization estimation for mean/no filter); Hypothesis-sampled for R<=6, P<=8. "
+    "(mean|stddev, stddev not with infinite values) x filter (none|sort|cvar) x evaluation path (combined|split) (+ merged-realization estimation for mean/no filter); Hypothesis-sampled for R<=6, P<=8. "
     "Oracle: flag/gate predicates + differential run of the same code on the reduced ensemble (failed realizations "
     "deleted, weights restricted) + exact affine gradient; plus a real SLSQP run per fault set for the exit code. "
     "Non-trivial: >=1 failure and >=1 surviving realization with positive weight."
@@ -52,6 +52,24 @@ def design(r_n: int, p_n: int, n: int) -> np.ndarray:
             if n > 1:
                 d[r, p, (p + 1) % n] += 0.25
     return d
+
+
+class InfiniteValues:
+    """Evaluator wrapper: some cells that are not NaN are +inf / -inf (an infinite value is a value, not a failure)."""
+
+    def __init__(self, inner: AffineEvaluator, cells: list[list[int]], k_n: int) -> None:  # noqa: D107
+        self.inner, self.cells, self.k_n, self.calls = inner, cells, k_n, inner.calls
+
+    def __call__(self, variables: np.ndarray, context: Any) -> Any:  # noqa: ANN401
+        res = self.inner(variables, context)
+        perts = np.full(variables.shape[0], -1) if context.perturbations is None else np.asarray(context.perturbations)
+        for r, p, col, sign in self.cells:
+            rows = (np.asarray(context.realizations) == r) & (perts == p)
+            target = res.objectives if col < self.k_n else res.constraints
+            c = col if col < self.k_n else col - self.k_n
+            keep_nan = np.isnan(target[rows, c])
+            target[rows, c] = np.where(keep_nan, np.nan, np.inf if sign > 0 else -np.inf)
+        return res
 
 
 def make(case: dict[str, Any], keep: list[int] | None = None) -> tuple[EnOptConfig, AffineEvaluator, PluginManager]:
@@ -84,7 +102,9 @@ def make(case: dict[str, Any], keep: list[int] | None = None) -> tuple[EnOptConf
         for p in range(p_n):
             if case["mask"][r_n + r * p_n + p]:
                 fail[(new_r, p)] = [col]
-    ev = AffineEvaluator(a[keep][:, :k_n], b[keep][:, :k_n], a[keep][:, k_n:], b[keep][:, k_n:], fail=fail)
+    ev: Any = AffineEvaluator(a[keep][:, :k_n], b[keep][:, :k_n], a[keep][:, k_n:], b[keep][:, k_n:], fail=fail)
+    if case.get("inf") and len(keep) == r_n:
+        ev = InfiniteValues(ev, case["inf"], k_n)
     manager = PluginManager()
     manager.add_plugin("sampler", "design", DesignSamplerPlugin([design(r_n, p_n, n)[keep]]))
     return EnOptConfig.model_validate(cfg), ev, manager
@@ -146,6 +166,8 @@ def run_case(case: dict[str, Any]) -> dict[str, Any]:  # noqa: C901, PLR0912, PL
           f"{int((~f_failed).sum())} successes, min {case['rmin_eff']}: functions {'present' if fres.functions is not None else 'absent'}", case)
     check((gres.gradients is not None) == g_ok, "gradient-gate",
           f"{int((~g_failed).sum())} successes, min {case['rmin_eff']}: gradients {'present' if gres.gradients is not None else 'absent'}", case)
+    if case.get("inf"):
+        return info  # (values that involve infinities are not compared: only the flags and gates are decided)
     # (c) values against the reduced ensemble
     keep_f = [r for r in range(r_n) if not f_failed[r]]
     keep_g = [r for r in range(r_n) if not g_failed[r]]
@@ -245,7 +267,7 @@ def classify(case: dict[str, Any], info: dict[str, Any]) -> tuple[bool, tuple[st
     nontrivial = bool(mask.any()) and bool(np.any(w[~f_failed] > 0))
     return nontrivial, (f"R={r_n}", f"P={case['P']}", case["estimator"], f"filter={case['filter']}",
                         "split" if case["split"] else "combined", "aborted" if info["aborted"] else f"compared={min(info['compared'], 3)}",
-                        f"failures={min(int(mask.sum()), 4)}")
+                        f"failures={min(int(mask.sum()), 4)}", "infinite-values" if case.get("inf") else "finite-values")
 
 
 def exhaustive_shard(item: dict[str, Any]) -> Collector:
@@ -309,7 +331,17 @@ def hypothesis_shard(item: dict[str, Any]) -> Collector:
         if sum(weights) == 0:
             weights[0] = 1.0
         k_n, c_n = draw(st.integers(1, 2)), draw(st.integers(1, 3))
-        return normalise({"R": r_n, "P": p_n, "n": n, "K": k_n, "C": c_n, "mask": mask,
+        inf = []
+        if draw(st.integers(0, 4)) == 0:  # infinite values (both signs, several columns) in cells that did not fail
+            for _ in range(draw(st.integers(1, 3))):
+                r_i, p_i = draw(st.integers(0, r_n - 1)), draw(st.integers(-1, p_n - 1))
+                first = draw(st.integers(0, k_n + c_n - 1))
+                sign = draw(st.sampled_from([1, -1]))
+                inf.append([r_i, p_i, first, sign])
+                group = list(range(k_n)) if first < k_n else list(range(k_n, k_n + c_n))
+                if len(group) > 1 and draw(st.booleans()):  # the opposite infinity in another column of the same row
+                    inf.append([r_i, p_i, draw(st.sampled_from([c for c in group if c != first])), -sign])
+        return normalise({"inf": inf,"R": r_n, "P": p_n, "n": n, "K": k_n, "C": c_n, "mask": mask,
                           "rmin": draw(st.integers(0, r_n)), "pmin": draw(st.integers(1, p_n)),
                           "nan_col": draw(st.integers(0, k_n + c_n - 1)), "estimator": est,
                           "filter": draw(st.sampled_from(["none", "none", "sort", "cvar"])) if r_n > 1 else "none",
